@@ -49,6 +49,7 @@ NamesB  == {<<110>>, <<110, 46>>, <<110, 89>>, <<>>}                \* + "nY", "
 ValuesA == {<<>>, <<97>>, <<97, 98, 99, 211, 77, 52>>, <<215, 109, 248>>}   \* "", "a", b64 = "YWJj0000", b64 = "1234"
 (* k repetitions of the three bytes whose base64 is "1234": a legitimate value with a long all-digit payload *)
 Rep(k) == [i \in 1..(3 * k) |-> <<215, 109, 248>>[((i - 1) % 3) + 1]]
+ValuesV1 == {<<>>, <<97>>}
 ValuesB == ValuesA \cup {<<97, 98>>, <<0, 255, 124, 58>>, <<215, 109, 248, 215, 109, 248>>}
 
 PIPE  == 124
